@@ -32,6 +32,8 @@ KF_LINE = "C12-line-recycled-under-trafo-flag"
 KF_INS = "C12-trafo-in-service-recycled"
 KF_KEY = "C12-batch-keyerror"
 KF_TWICE = "C12-batch-same-table-twice"
+KF_POISON = "C12-diverged-initial-run-recycled"
+KF_SILENT = "C12-only-v-results-ignores-divergence"
 
 VALS = {"p_mw": [1.5, 2.5, 0.5, 2.0], "q_mvar": [0.25, 0.75, -0.25, 0.5], "scaling": [0.5, 1.5, 0.75, 1.25],
         "vm_pu": [1.02, 0.99, 1.03, 1.0], "va_degree": [5., -5., 2., 0.], "tap_pos": [1, -2, 2, 0],
@@ -54,7 +56,14 @@ OUTVARS = {"res_bus": ["vm_pu", "va_degree", "p_mw", "q_mvar"],
            "res_trafo": ["loading_percent", "i_hv_ka", "i_lv_ka", "p_hv_mw", "pl_mw"],
            "res_trafo3w": ["loading_percent", "i_hv_ka", "p_hv_mw"],
            "res_load": ["p_mw", "q_mvar"], "res_ext_grid": ["p_mw", "q_mvar"], "res_gen": ["q_mvar", "vm_pu"], "res_sgen": ["p_mw"]}
+TABLE_LEN = {"res_bus": 5, "res_line": 3, "res_trafo": 2, "res_trafo3w": 1, "res_load": 3, "res_ext_grid": 1, "res_gen": 1, "res_sgen": 1}
+EVAL = {"max": np.max, "min": np.min, "sum": np.sum}
 _EMPTY = []
+
+
+def norm_logs(case):
+    """[table, variable, long, index, eval] (older corpus entries have three fields)"""
+    return [list(l) + [None] * (5 - len(l)) for l in case["logs"]]
 
 
 def base_net(rng):
@@ -78,6 +87,7 @@ def base_net(rng):
     pp.create_shunt(net, b2, q_mvar=0.5)
     pp.create_ward(net, b3, 0.125, 0.125, 0.125, 0.125)
     pp.create_impedance(net, b1, b2, 0.01, 0.02, 25.)
+    net.trafo["shift_degree"] = 0.0      # the 3W transformer feeding the same 20 kV ring has no phase shift
     return net
 
 
@@ -143,6 +153,11 @@ def gen_case(rng, dom, forced=None):
             ctrls.append({"kind": "other", "e": "shunt", "v": "step"})
     if not ctrls:
         ctrls.append({"kind": "const", "e": "load", "v": "p_mw", "user_off": False})
+    # continue_on_divergence with one step that cannot be solved (5 GW load), anywhere in the profile
+    cod = rng.random() < 0.3
+    div_step = None
+    if (cod and rng.random() < 0.75) or rng.random() < 0.05:
+        div_step = rng.randrange(n)
     for c in ctrls:
         if c["kind"] in ("const", "other"):
             vals = list(VALS[c["v"]])
@@ -153,6 +168,10 @@ def gen_case(rng, dom, forced=None):
                 # step 1 is wrong in every later step
                 first = rng.random() < 0.5
                 c["values"] = [first] + [not first] * (n - 1)
+    if div_step is not None:
+        vals = [1.0, 2.0, 1.5, 0.5][:n]
+        vals[div_step] = 5000.0
+        ctrls.append({"kind": "const", "e": "load", "v": "p_mw", "user_off": False, "idx": 1, "values": vals})
     # OutputWriter requests
     logs = []
     style = rng.random()
@@ -166,12 +185,27 @@ def gen_case(rng, dom, forced=None):
             v = rng.choice([x for x in KEYS[t] if x in OUTVARS[t]] or OUTVARS[t])
         else:
             v = rng.choice(OUTVARS[t])
-        if (t, v) in [(a, b_) for a, b_, _ in logs]:
+        if (t, v) in [(e[0], e[1]) for e in logs]:
             continue
-        logs.append((t, v, style > 0.8 or (style > 0.65 and rng.random() < 0.5)))
+        lg = style > 0.8 or (style > 0.65 and rng.random() < 0.5)
+        index, ev = None, None
+        if lg and rng.random() < 0.6:
+            # explicit index: subset, permutation of the full index, or full index in table order
+            full = list(range(TABLE_LEN[t]))
+            r = rng.random()
+            if r < 0.45:
+                index = rng.sample(full, rng.randint(1, len(full)))
+            elif r < 0.85:
+                index = rng.sample(full, len(full))
+            else:
+                index = full
+        if lg and rng.random() < 0.25:
+            ev = rng.choice(["max", "min", "sum"])
+        logs.append((t, v, lg, index, ev))
     if not logs:
-        logs = [("res_bus", "vm_pu", False)]
-    return {"n": n, "ctrls": ctrls, "logs": [list(l) for l in logs], "net_seed": rng.randrange(1 << 30)}
+        logs = [("res_bus", "vm_pu", False, None, None)]
+    return {"n": n, "ctrls": ctrls, "logs": [list(l) for l in logs], "net_seed": rng.randrange(1 << 30), "cod": cod,
+            "div_step": div_step}
 
 
 def build(case):
@@ -184,7 +218,7 @@ def build(case):
             vals = c["values"]
             df = pd.DataFrame({"a": vals}, dtype=object if c["v"] == "in_service" else None)
             kw = {"recycle": False} if c["user_off"] else {}
-            o = pc.ConstControl(net, c["e"], c["v"], 0, data_source=DFData(df), profile_name="a", **kw)
+            o = pc.ConstControl(net, c["e"], c["v"], c.get("idx", 0), data_source=DFData(df), profile_name="a", **kw)
         elif c["kind"] == "tap":
             kw = {"recycle": False} if c["user_off"] else {}
             o = pc.DiscreteTapControl(net, 0, 0.99, 1.03, side="lv", **kw)
@@ -212,11 +246,12 @@ def run_impl(case):
     for o in objs:
         r = net.controller.at[o.index, "recycle"]
         rec_col.append([bool(r["trafo"]), bool(r["gen"]), bool(r["bus_pq"])] if isinstance(r, dict) else None)
-    two = [(t, v) for t, v, lg in case["logs"] if not lg]
+    logs = norm_logs(case)
+    two = [(t, v) for t, v, lg, ix, ev in logs if not lg]
     ow = OutputWriter(net, time_steps=range(case["n"]), log_variables=list(two))
-    for t, v, lg in case["logs"]:
+    for j, (t, v, lg, ix, ev) in enumerate(logs):
         if lg:
-            ow.log_variable(t, v)
+            ow.log_variable(t, v, index=ix, eval_function=EVAL.get(ev), eval_name=("ev%d" % j) if ev else None)
     seen = {}
     orig = rts.get_recycle_settings
 
@@ -238,7 +273,8 @@ def run_impl(case):
     rts.get_recycle_settings = rec_settings
     exc = None
     try:
-        run_timeseries(net, time_steps=range(case["n"]), verbose=False, output_writer_fct=owf, numba=False)
+        run_timeseries(net, time_steps=range(case["n"]), verbose=False, output_writer_fct=owf, numba=False,
+                       continue_on_divergence=bool(case.get("cod", False)))
     except Exception as e:
         exc = type(e).__name__
     finally:
@@ -247,11 +283,20 @@ def run_impl(case):
     comb = [bool(r["trafo"]), bool(r["gen"]), bool(r["bus_pq"])] if isinstance(r, dict) else None
     batch = bool(isinstance(r, dict) and r.get("batch_read"))
     outputs = {}
+    failed = None
     if exc is None:
-        for t, v, lg in case["logs"]:
-            key = "%s.%s" % (t, v)
-            outputs[key] = ow.output[key].values.astype(float) if key in ow.output else None
-    return {"rec_col": rec_col, "comb": comb, "batch": batch, "exc": exc, "volts": volts, "outputs": outputs}
+        failed = [bool(x) for x in ow.output["Parameters"]["powerflow_failed"].values]
+        for j, (t, v, lg, ix, ev) in enumerate(logs):
+            df = ow.output.get("%s.%s" % (t, v))
+            if df is None:
+                outputs[j] = None
+            elif ev:
+                outputs[j] = {"ev": df["ev%d" % j].values.astype(float)} if ("ev%d" % j) in df.columns else None
+            else:
+                # by element label: the column of element i must hold the value of element i
+                labels = ix if ix is not None else list(range(TABLE_LEN[t]))
+                outputs[j] = {int(i): df[i].values.astype(float) for i in labels} if all(i in df.columns for i in labels) else None
+    return {"rec_col": rec_col, "comb": comb, "batch": batch, "exc": exc, "volts": volts, "outputs": outputs, "failed": failed}
 
 
 def run_reference(case, init_results=False):
@@ -263,22 +308,32 @@ def run_reference(case, init_results=False):
     has_tap = any(c["kind"] == "tap" for c in case["ctrls"])
     if has_tap:
         pc.DiscreteTapControl(net, 0, 0.99, 1.03, side="lv")
-    volts, outs = [], {"%s.%s" % (t, v): [] for t, v, _ in case["logs"]}
+    logs = norm_logs(case)
+    volts, outs, failed = [], {j: {} for j in range(len(logs))}, []
     for k in range(case["n"]):
         for c in case["ctrls"]:
             if c["kind"] in ("const", "other"):
-                net[c["e"]].at[0, c["v"]] = c["values"][k]
+                net[c["e"]].at[c.get("idx", 0), c["v"]] = c["values"][k]
         try:
-            if init_results and k > 0:
+            if init_results and k > 0 and not failed[-1]:
                 pp.runpp(net, run_control=has_tap, numba=False, init="results")
             else:
                 pp.runpp(net, run_control=has_tap, numba=False)
         except Exception as e:
-            return None
+            failed.append(True)
+            volts.append(None)
+            continue
+        failed.append(False)
         volts.append(volt(net))
-        for t, v, _ in case["logs"]:
-            outs["%s.%s" % (t, v)].append(net[t][v].values.astype(float).copy())
-    return {"volts": volts, "outputs": {k: np.array(v) for k, v in outs.items()}}
+        for j, (t, v, lg, ix, ev) in enumerate(logs):
+            col = net[t][v]
+            if ev:
+                vals = col.loc[ix].values if ix is not None else col.values
+                outs[j].setdefault("ev", {})[k] = float(EVAL[ev](vals.astype(float)))
+            else:
+                for i in (ix if ix is not None else list(col.index)):
+                    outs[j].setdefault(int(i), {})[k] = float(col.at[i])
+    return {"volts": volts, "outputs": outs, "failed": failed}
 
 
 def same_v(a, b, tol=1e-7):
@@ -293,7 +348,7 @@ def same_v(a, b, tol=1e-7):
     return True
 
 
-def model_term(case):
+def model_term(case, divs):
     cs = []
     for c in case["ctrls"]:
         if c["kind"] == "const":
@@ -302,23 +357,25 @@ def model_term(case):
             cs.append("(CTap %s %s)" % (cq.b(c["user_off"]), cq.s(c["e"])))
         else:
             cs.append("(COther %s %s)" % (cq.s(c["e"]), cq.s(c["v"])))
-    logs = ["{| l_table := %s; l_var := %s; l_long := %s |}" % (cq.s(t), cq.s(v), cq.b(lg)) for t, v, lg in case["logs"]]
+    logs = norm_logs(case)
+    terms = ["{| l_table := %s; l_var := %s; l_long := %s |}" % (cq.s(t), cq.s(v), cq.b(lg)) for t, v, lg, ix, ev in logs]
     # the two-tuples come first in ow.log_variables, entries added with log_variable() afterwards
-    order = [l for l, (t, v, lg) in zip(logs, case["logs"]) if not lg] + [l for l, (t, v, lg) in zip(logs, case["logs"]) if lg]
-    return "run_ts %s %s %s" % (cq.lst(cs), cq.nat(case["n"]), cq.lst(order))
+    order = [l for l, e in zip(terms, logs) if not e[2]] + [l for l, e in zip(terms, logs) if e[2]]
+    return "run_ts_div %s %s %s" % (cq.lst(cs), cq.lst([cq.b(d) for d in divs]), cq.lst(order))
 
 
 def guards(case, comb):
-    """python re-implementation of the guards G12a / G12b on the input"""
-    # after the repairs (ConstControl.set_recycle, batch eligibility per variable, get_batch_outputs) none of the four recorded
-    # failures is expected any more; the classification keys are kept so that a regression is reported under its old name
+    """python re-implementation of the guards on the input.  After the repairs (ConstControl.set_recycle, batch eligibility
+    per variable, get_batch_outputs) the first four failures are not expected any more; the classification keys are kept so
+    that a regression is reported under its old name"""
+    logs = norm_logs(case)
     line = any(c["kind"] == "const" and not c["user_off"] and c["e"] == "line" and c["v"] in LINE_PF for c in case["ctrls"])
     tins = any(c["kind"] == "const" and not c["user_off"] and c["e"] in ("trafo", "trafo3w") and c["v"] == "in_service" for c in case["ctrls"])
-    elig = comb is not None and not comb[0] and all((not lg) and t in KEYS for t, v, lg in case["logs"])
+    elig = comb is not None and not comb[0] and all((not lg) and t in KEYS for t, v, lg, ix, ev in logs)
     keyerr = twice = False
     if elig:
         seen = set()
-        for t, v, lg in case["logs"]:
+        for t, v, lg, ix, ev in logs:
             if t != "res_trafo3w" and t in seen:
                 twice = True
                 break
@@ -326,25 +383,46 @@ def guards(case, comb):
             if v not in KEYS[t]:
                 keyerr = True
                 break
-    return line, tins, keyerr, twice
+    # G12c: a controller with an initial run (every class but ConstControl) together with active recycling
+    poison = comb is not None and any(c["kind"] in ("tap", "other") for c in case["ctrls"])
+    return line, tins, keyerr, twice, poison
 
 
-def evaluate(ctx, case, mod):
-    impl = run_impl(case)
-    ref = run_reference(case)
-    desc = {k: case[k] for k in ("n", "ctrls", "logs", "net_seed")}
-    if ref is None:
-        ctx.count("reference_power_flow_failed")
-        return
-    if impl["exc"] == "LoadflowNotConverged" and run_reference(case, init_results=True) is None:
-        # Newton-Raphson started from the previous step's voltages does not converge on this input even without any
-        # recycling: solver convergence is an oracle (ASSUMPTIONS), nothing to compare
-        ctx.count("solver_diverges_from_previous_results_skipped")
-        ctx.case(desc, nontrivial=False)
-        return
-    fresh = []
-    for k in range(case["n"]):
-        fresh.append(k < len(impl["volts"]) and same_v(impl["volts"][k], ref["volts"][k]))
+def judge(ctx, case, impl, ref, divs, desc, mod):
+    n = case["n"]
+    logs = norm_logs(case)
+    m_rec, m_comb, m_steps, m_w = mod          # m_steps[k]: None = reported failed, bool = solved fresh / stale
+    # ---- what the implementation did, per step: None = flagged failed, "raised", or fresh bool
+    status = []
+    done = len(impl["volts"])
+    for k in range(n):
+        if impl["exc"] in (None, "KeyError", "ValueError"):
+            if k < done and impl["volts"][k] is None:
+                status.append(None)
+            elif k < done:
+                status.append(bool(ref["volts"][k] is not None and same_v(impl["volts"][k], ref["volts"][k])) if ref["volts"][k] is not None else "solved_unsolvable")
+            else:
+                status.append("missing")
+        else:
+            if k < done:
+                status.append(None if impl["volts"][k] is None else (bool(same_v(impl["volts"][k], ref["volts"][k])) if ref["volts"][k] is not None else "solved_unsolvable"))
+            elif k == done:
+                status.append("raised")
+            else:
+                status.append("aborted")
+    if impl["exc"] is None and impl["failed"] is not None:
+        for k in range(n):
+            if impl["failed"][k] != (status[k] is None):
+                status[k] = "flag_mismatch"
+    # a step the fresh loop solves but the time series reports as failed / raises on although the model expects a solve:
+    # is it the solver's sensitivity to the start vector (previous voltages)?  then there is nothing to compare
+    suspicious = [k for k in range(n) if status[k] in (None, "raised") and not divs[k] and m_steps[k] is not None]
+    if suspicious:
+        r2 = run_reference(case, init_results=True)
+        if r2["failed"][suspicious[0]]:
+            ctx.count("solver_diverges_from_previous_results_skipped")
+            ctx.case(desc, nontrivial=False)
+            return
     if impl["exc"] in ("KeyError", "ValueError"):
         wv = cq.Err(impl["exc"])
     elif impl["batch"]:
@@ -353,46 +431,93 @@ def evaluate(ctx, case, mod):
         wv = "per_step"
     # ---- correspondence
     ctx.corr_checked += 1
-    m_rec, m_comb, m_fresh, m_w = mod
+    cmp_steps = []
+    for k in range(n):
+        if status[k] in ("aborted", "missing"):
+            break
+        mk = "solved_unsolvable" if m_steps[k] == "silent" else m_steps[k]
+        cmp_steps.append((status[k], mk if status[k] != "raised" else ("raised" if mk is None else mk)))
+        if mk == "solved_unsolvable":
+            break       # what a power flow started from silently diverged internals gives afterwards is not modelled
+    steps_differ = [k for k, (a, b_) in enumerate(cmp_steps) if a != b_]
     pf_failed = impl["exc"] is not None and impl["exc"] not in ("KeyError", "ValueError")
     if m_rec != impl["rec_col"]:
         ctx.disagreement("recycle column: impl %s model %s" % (impl["rec_col"], m_rec), desc)
     elif m_comb != impl["comb"]:
         ctx.disagreement("combined recycle flags: impl %s model %s" % (impl["comb"], m_comb), desc)
-    elif m_fresh != fresh and not (pf_failed and not all(m_fresh)):
-        ctx.disagreement("time steps equal to a fresh power flow: impl %s model %s (exception %s)" % (fresh, m_fresh, impl["exc"]), desc)
+    elif steps_differ:
+        ctx.disagreement("per time step (None = reported failed, True/False = solve equals / differs from a fresh power flow): impl %s model %s (exception %s)" % (
+            [a for a, _ in cmp_steps], [b_ for _, b_ in cmp_steps], impl["exc"]), desc)
     elif not pf_failed and m_w != wv:
         ctx.disagreement("writer: impl %s (batch=%s) model %s" % (wv, impl["batch"], m_w), desc)
-    # ---- oracle: the property itself
-    line, tins, keyerr, twice = guards(case, impl["comb"])
+    # ---- oracle: the property itself, against the fresh loop
+    line, tins, keyerr, twice, poison = guards(case, impl["comb"])
     viol = []
     if impl["exc"] == "KeyError":
-        viol.append((KF_KEY if (keyerr and m_w == cq.Err("KeyError")) else "spec", "run_timeseries raised KeyError instead of recording %s" % case["logs"]))
+        viol.append((KF_KEY if (keyerr and m_w == cq.Err("KeyError")) else "spec", "run_timeseries raised KeyError instead of recording %s" % logs))
     elif impl["exc"] == "ValueError":
-        viol.append((KF_TWICE if (twice and m_w == cq.Err("ValueError")) else "spec", "run_timeseries raised ValueError instead of recording %s" % case["logs"]))
-    elif impl["exc"] is not None or not all(fresh):
-        bad = [k for k, f in enumerate(fresh) if not f]
-        if (line or tins) and m_fresh == fresh or (pf_failed and not all(m_fresh)):
-            kind = KF_LINE if line else KF_INS
-        else:
-            kind = "spec"
-        viol.append((kind, "time steps %s of run_timeseries differ from a fresh power flow of the step's tables (exception: %s)" % (bad, impl["exc"])))
-    if impl["exc"] is None:
-        for key, arr in impl["outputs"].items():
-            refv = ref["outputs"][key]
-            if arr is None or arr.shape != refv.shape or not np.allclose(arr, refv, rtol=1e-6, atol=1e-6, equal_nan=True):
-                if all(fresh):
-                    viol.append(("spec", "recorded %s differs from the fresh loop although the voltages agree (batch=%s)" % (key, impl["batch"])))
+        viol.append((KF_TWICE if (twice and m_w == cq.Err("ValueError")) else "spec", "run_timeseries raised ValueError instead of recording %s" % logs))
+    else:
+        for k in range(n):
+            st = status[k]
+            if st in ("aborted", "missing"):
+                break
+            if divs[k]:
+                # the fresh power flow of this step does not converge: the time series must say so
+                if st not in (None, "raised"):
+                    kind = KF_SILENT if (impl["batch"] and k >= 1 and m_steps[k] == "silent") else "spec"
+                    viol.append((kind, "time step %d cannot be solved by a fresh power flow, but run_timeseries does not report it as failed (%s)" % (k, st)))
+                    break
+                continue
+            if st is True:
+                continue
+            earlier_div = any(divs[:k])
+            if st in (None, "raised", "flag_mismatch"):
+                kind = KF_POISON if (poison and earlier_div and case.get("cod") and m_steps[k] is None) else "spec"
+                viol.append((kind, "time step %d is reported as failed (%s) although a fresh power flow of its tables converges%s" % (
+                    k, st, " (an earlier step diverged)" if earlier_div else "")))
+            else:
+                if (line or tins) and m_steps[k] is False:
+                    kind = KF_LINE if line else KF_INS
+                else:
+                    kind = "spec"
+                viol.append((kind, "time step %d of run_timeseries differs from a fresh power flow of the step's tables" % k))
+            break
+    if impl["exc"] is None and not viol:
+        for j, (t, v, lg, ix, ev) in enumerate(logs):
+            got = impl["outputs"].get(j)
+            exp = ref["outputs"][j]
+            bad = None
+            if got is None:
+                bad = "requested %s.%s (index %s, eval %s) is missing from OutputWriter.output" % (t, v, ix, ev)
+            else:
+                for lab, series in exp.items():
+                    for k, val in series.items():
+                        if status[k] is not True:
+                            continue
+                        g = got[lab][k]
+                        if not (abs(g - val) <= 1e-6 * max(1.0, abs(val)) or (g != g and val != val)):
+                            bad = "recorded %s.%s[%s] at time step %d is %r, the fresh loop gives %r (index %s, eval %s, batch=%s)" % (
+                                t, v, lab, k, g, val, ix, ev, impl["batch"])
+                            break
+                    if bad:
+                        break
+            if bad:
+                viol.append(("spec", bad))
                 break
     for kind, what in viol[:1]:
         ctx.violation(kind, what, desc)
     ctx.count("writer_%s" % (wv if isinstance(wv, str) else wv.s))
     ctx.count("recycle_%s" % ("off" if impl["comb"] is None else "".join("TGB"[i] if f else "-" for i, f in enumerate(impl["comb"]))))
-    ctx.count("fresh_all" if all(fresh) else "stale_some")
+    ctx.count("all_steps_fresh" if all(x is True for x in status) else "some_step_not_fresh_or_failed")
+    if any(divs):
+        ctx.count("diverging_step_cod_%s" % bool(case.get("cod")))
+    for e in logs:
+        ctx.count("log_%s%s%s" % ("long" if e[2] else "tuple", "_index" if e[3] is not None else "", "_eval" if e[4] else ""))
     for c in case["ctrls"]:
         ctx.count("ctrl_%s_%s" % (c["kind"], c["e"]))
     ctx.case(desc, nontrivial=impl["comb"] is not None or impl["batch"],
-             sample={"case": desc, "impl": {"recycle": impl["rec_col"], "combined": impl["comb"], "fresh": fresh, "writer": str(wv)}})
+             sample={"case": desc, "impl": {"recycle": impl["rec_col"], "combined": impl["comb"], "steps": [str(x) for x in status], "writer": str(wv)}})
 
 
 def run(ctx):
@@ -412,14 +537,23 @@ def run(ctx):
         cases.append(gen_case(rng, dom, forced=p))
     for k in range(ctx.n(50, 800)):
         cases.append(gen_case(rng, dom))
-    terms = [model_term(c) for c in cases]
+    pre = []
+    for case in cases:
+        ref = run_reference(case)
+        impl = run_impl(case)
+        desc = {k: case.get(k) for k in ("n", "ctrls", "logs", "net_seed", "cod", "div_step")}
+        pre.append((case, impl, ref, list(ref["failed"]), desc))
+    terms = [model_term(c, divs) for c, _, _, divs, _ in pre]
     model = ctx.coq_eval("c12", "C12.Model", terms, shard=40, timeout=1200)
-    for case, mod in zip(cases, model):
-        evaluate(ctx, case, mod)
+    for (case, impl, ref, divs, desc), mod in zip(pre, model):
+        judge(ctx, case, impl, ref, divs, desc, mod)
     ctx.extra["domain_pairs_in_net"] = len(dom)
 
 
 def replay(ctx, rec):
     case = rec["case"]
-    mod = ctx.coq_eval("c12r", "C12.Model", [model_term(case)])[0]
-    evaluate(ctx, case, mod)
+    ref = run_reference(case)
+    impl = run_impl(case)
+    divs = list(ref["failed"])
+    mod = ctx.coq_eval("c12r", "C12.Model", [model_term(case, divs)], timeout=1200)[0]
+    judge(ctx, case, impl, ref, divs, {k: case.get(k) for k in ("n", "ctrls", "logs", "net_seed", "cod", "div_step")}, mod)
